@@ -27,7 +27,7 @@ FIELDS = ('_inputs', '_outputs', '_gates', '_gate_to_users', '_blocks')
 # C02.IDX: fold the representation primitives over model states
 
 
-def fold_primitives(ck: Checker, den: Denotations, R='C02.IDX', which=('emplace', 'remove', 'rename', 'replace_inputs', 'block')):
+def fold_primitives(ck: Checker, den: Denotations, R='C02.IDX', which=('emplace', 'users', 'remove', 'rename', 'replace_inputs', 'block')):
     repo = ck.repo
     M = cm.Model(repo, den)
     mod = M.mod
@@ -75,6 +75,27 @@ def fold_primitives(ck: Checker, den: Denotations, R='C02.IDX', which=('emplace'
         post = cm.snapshot(c)
         extra = [] if err or post['inputs'] == pre['inputs'] + ['n'] else [f'input list {post["inputs"]}: new INPUT not appended last']
         report(method, '(n, INPUT)', c, err, extra)
+
+    # _add_user / _remove_user: one occurrence per call (an operand used twice is listed twice)
+    if 'users' in which:
+        import collections as _c
+        for method, args, delta in (('_remove_user', ('g1', 'g3'), {'g3': -1}), ('_remove_user', ('g1', 'g2'), {'g2': -1}), ('_remove_user', ('g1', 'zz'), {}),
+                                    ('_remove_user', ('nope', 'g3'), {}), ('_add_user', ('g1', 'g3'), {'g3': 1}), ('_add_user', ('g1', 'n'), {'n': 1}),
+                                    ('_add_user', ('fresh', 'n'), {'n': 1})):
+            c = fresh()
+            raw = c._d['_gate_to_users']
+            before = {k: _c.Counter(v) for k, v in raw.items()}
+            _, err = M.call(c, method, *args)
+            after = {k: _c.Counter(v) for k, v in raw.items() if v}
+            want = {k: _c.Counter(v) for k, v in before.items()}
+            want.setdefault(args[0], _c.Counter())
+            for u, d in delta.items():
+                want[args[0]][u] += d
+            want = {k: +v for k, v in want.items() if +v}
+            ck.check(not err and after == want, R, mod, mod.func(f'Circuit.{method}'),
+                     f'{method}{args} changes the users of {args[0]} by exactly {delta or "nothing"} (g1 is listed for g2 once and for g3 = XOR(g1, g1) twice)',
+                     err or f'users of {args[0]} after the call: {sorted(after.get(args[0], _c.Counter()).elements())}, expected {sorted(want.get(args[0], _c.Counter()).elements())}',
+                     construct=f'{method}{args}')
 
     # _remove_gate: gate without users; covers input/output/duplicate operands/block member/block input
     specs = {
@@ -203,6 +224,19 @@ def fold_primitives(ck: Checker, den: Denotations, R='C02.IDX', which=('emplace'
                  f'block after rename: {got}', construct='Block._rename_gate(g2 -> zz)')
     except InterpRaise as e:
         ck.bad(R, mod, blk_fn, 'Block._rename_gate relabels', f'raises {e.exc_name}', construct='Block._rename_gate(g2 -> zz)')
+    # a label listed more than once (make_block collects an outside operand once per use; outputs may repeat)
+    c = fresh()
+    b = c._d['_blocks']['B1']
+    b._d['_inputs'][:] = ['a', 'b', 'a']
+    b._d['_outputs'][:] = ['g2', 'g1', 'g2']
+    try:
+        RepoFunc(M.interp, mod, blk_fn, bound_self=b)('a', 'zz')
+        RepoFunc(M.interp, mod, blk_fn, bound_self=b)('g2', 'yy')
+        got = (b._d['_inputs'], b._d['_gates'], b._d['_outputs'])
+        ck.check(got == (['zz', 'b', 'zz'], ['g1', 'yy'], ['yy', 'g1', 'yy']), R, mod, blk_fn, 'Block._rename_gate relabels a label that is listed several times at every position',
+                 f'block after renaming a -> zz and g2 -> yy: {got}', construct='Block._rename_gate with repeated labels')
+    except InterpRaise as e:
+        ck.bad(R, mod, blk_fn, 'Block._rename_gate relabels repeated labels', f'raises {e.exc_name}', construct='Block._rename_gate with repeated labels')
     return M
 
 
